@@ -46,9 +46,10 @@ def main(ctx: Ctx) -> None:
         ctx.coverage.setdefault("sub_wall_s", {})[name] = round(time.time() - t0, 1)
         ran.append(name)
     ctx.coverage["subchecks_run"] = ran
-    rules = [ctx.coverage.get(k) for k in ("mro_rule", "reach_rule") if ctx.coverage.get(k)]
-    if rules:
-        ctx.coverage["rule"] = ((ctx.coverage.get("rule") or "") + " ‖ " if ctx.coverage.get("rule") else "") + " ‖ ".join(rules)
+    # mro / reach describe their enumeration in *_rule; bind / fold append " | bind: …" / " | fold: …" to "rule"
+    mine = " | ".join(f"{k}: {ctx.coverage[k + '_rule']}" for k in ("mro", "reach") if ctx.coverage.get(k + "_rule"))
+    if mine:
+        ctx.coverage["rule"] = mine + (ctx.coverage.get("rule") or "")
 
 
 def replay(ctx: Ctx, path: str) -> int:
